@@ -302,7 +302,7 @@ def run_shard(cfg):
     def f_mol(m):
         roundtrip(acc, "molecule", m.text(True), g.Molecule, m)
         if acc.evaluations % 97 == 0:
-            acc.sample({"level": "molecule", "text": m.text(True), "canonical": str(g.Molecule(m.text(True)))})
+            acc.sample({"level": "molecule", "text": m.text(True)})
     drive(mol_case(), f_mol, per["mols"], seed + 3)
 
     def f_sys(s):
